@@ -334,7 +334,13 @@ def run_r3(ctx, rule):
                                 target = a
                 law(rule, "read/resize-target", "the buffer is grown to window end + chunk_size", target, cur, fn.loc(ev[1]))
     if not found:
-        rule.bad("read/slice", "anchor missing: the slice handed to read (index_mut with a range)", kind="anchor-missing")
+        # an open-ended slice (`&mut buf[window_end..]`) offers the source whatever the buffer happens to hold behind
+        # the window - more than chunk_size after a realign: not a missing anchor but a violation of the slice law
+        open_ended = any(norm(util.cname(t2)).endswith("index_mut") and "RangeFrom" in str(sym(fn).operand(t2["args"][1]) if len(t2["args"]) > 1 else "") for _b2, t2 in fn.calls())
+        if open_ended:
+            rule.bad("read/slice-len", "the slice handed to the source is open-ended (`buf[window end ..]`), not exactly chunk_size bytes: a source that fills what it is offered returns more than one chunk after a realign", fn.loc())
+        else:
+            rule.bad("read/slice", "anchor missing: the slice handed to read (index_mut with a range)", kind="anchor-missing")
     # valid_len += n is dominated by n <= chunk_size
     for f, bi, si, name in util.field_stores(facts, DRT):
         if f is fn and name == "valid_len":
